@@ -27,6 +27,12 @@ struct TraceSink {
     std::vector<std::string> lines;
     unsigned long wseed = 12345;
     bool record = true;
+    // image-aware mode (periodic runs): a displacement by sigma box widths multiplies a value by chi(sigma)
+    bool shiftAware = false; bool inTop = false; long topK = -2; long leafLevel = 0;
+    unsigned long r[8] = {0x9E3779B97F4A7C15UL | 1, 0xC2B2AE3D27D4EB4FUL | 1, 0x165667B19E3779F9UL | 1, 0x27D4EB2F165667C5UL | 1, 3, 5, 7, 11};
+    static unsigned long inv64(unsigned long a){ unsigned long x = a; for(int i = 0 ; i < 6 ; ++i) x *= 2 - a * x; return x; }
+    static unsigned long upow(unsigned long b, unsigned long e){ unsigned long res = 1; while(e){ if(e & 1) res *= b; b *= b; e >>= 1; } return res; }
+    unsigned long chi1(int dim, long sigma) const { return sigma >= 0 ? upow(r[dim], (unsigned long)sigma) : upow(inv64(r[dim]), (unsigned long)(-sigma)); }
     unsigned long weight(long pid) const { return vw_mix(wseed ^ (unsigned long)(pid) * 0x100000001B3UL); }
     void add(std::string s){ std::lock_guard<std::mutex> g(mtx); if(record) lines.push_back(std::move(s)); }
 };
@@ -46,8 +52,26 @@ inline std::string pidstr(const long* idx, long n){
     std::string s; for(size_t k = 0 ; k < v.size() ; ++k){ if(k) s += ","; s += std::to_string(v[k]); } return s;
 }
 
+inline long floordiv(long a, long b){ long q = a / b; if((a % b != 0) && ((a < 0) != (b < 0))) q -= 1; return q; }
+
 template <class RealType, class SpaceIndexType>
 class TraceKernel {
+    static constexpr long D = SpaceIndexType::Dim;
+    // chi of the image shift of a source at relative offset o (in cells of level `level`) from a target at coordinates tc
+    template <class Coord>
+    static unsigned long chi_wrap(const Coord& tc, const std::array<long, D>& o, long level){
+        const TraceSink& S = *trace_sink();
+        if(!S.shiftAware) return 1UL;
+        unsigned long f = 1;
+        for(long j = 0 ; j < D ; ++j) f *= S.chi1(int(j), floordiv(tc[j] + o[j], 1L << level));
+        return f;
+    }
+    static unsigned long chi_scaled(const std::array<long, D>& o, long scale){
+        const TraceSink& S = *trace_sink();
+        unsigned long f = 1;
+        for(long j = 0 ; j < D ; ++j) f *= S.chi1(int(j), o[j] * scale);
+        return f;
+    }
 public:
     using SpacialConfiguration = TbfSpacialConfiguration<RealType, SpaceIndexType::Dim>;
     explicit TraceKernel(const SpacialConfiguration&){}
@@ -63,7 +87,17 @@ public:
     template <class Symb, class Cont, class Cell>
     void M2M(const Symb& symb, const long level, const Cont& children, Cell& parent, const long pos[], const long n) const {
         std::vector<std::pair<std::string,long>> cs;
-        for(long k = 0 ; k < n ; ++k){ const auto& c = children[k].get(); parent.val += c.val; cs.push_back({tagstr(c), pos[k]}); }
+        for(long k = 0 ; k < n ; ++k){
+            const auto& c = children[k].get();
+            unsigned long f = 1;
+            const TraceSink& S = *trace_sink();
+            if(S.shiftAware && S.inTop && level < S.topK + 3){
+                // virtual levels: child `pos` of a cell of 2^(topK+3-level) boxes sits at bits(pos) * 2^(topK+2-level) boxes
+                std::array<long, D> o; for(long j = 0 ; j < D ; ++j) o[j] = (pos[k] >> (D - 1 - j)) & 1;
+                f = chi_scaled(o, 1L << (S.topK + 2 - level));
+            }
+            parent.val += f * c.val; cs.push_back({tagstr(c), pos[k]});
+        }
         std::sort(cs.begin(), cs.end());
         std::string s = "M2M " + std::to_string(level) + " " + std::to_string(symb.spaceIndex) + " c=" + coordstr(symb.boxCoord) + " t=" + tagstr(parent) + " :";
         for(auto& c : cs) s += " " + c.first + "," + std::to_string(c.second);
@@ -72,7 +106,16 @@ public:
     template <class Symb, class Cont, class Cell>
     void M2L(const Symb& symb, const long level, const Cont& srcs, const long pos[], const long n, Cell& target) const {
         std::vector<std::pair<std::string,long>> cs;
-        for(long k = 0 ; k < n ; ++k){ const auto& c = srcs[k].get(); target.val += c.val; cs.push_back({tagstr(c), pos[k]}); }
+        for(long k = 0 ; k < n ; ++k){
+            const auto& c = srcs[k].get();
+            unsigned long f = 1;
+            const TraceSink& S = *trace_sink();
+            if(S.shiftAware){
+                auto o = SpaceIndexType::getRelativePosFromInteractionIndex(pos[k]);
+                f = S.inTop ? chi_scaled(o, 1L << (S.topK + 3 - level)) : chi_wrap(symb.boxCoord, o, level);
+            }
+            target.val += f * c.val; cs.push_back({tagstr(c), pos[k]});
+        }
         std::sort(cs.begin(), cs.end());
         std::string s = "M2L " + std::to_string(level) + " " + std::to_string(symb.spaceIndex) + " c=" + coordstr(symb.boxCoord) + " t=" + tagstr(target) + " :";
         for(auto& c : cs) s += " " + c.first + "," + std::to_string(c.second);
@@ -98,8 +141,15 @@ public:
         unsigned long ws = 0, wt = 0;
         for(long k = 0 ; k < ns ; ++k) ws += trace_sink()->weight(sidx[k]);
         for(long k = 0 ; k < nt ; ++k) wt += trace_sink()->weight(tidx[k]);
-        for(long k = 0 ; k < nt ; ++k) trhs[0][k] += ws;
-        for(long k = 0 ; k < ns ; ++k) srhs[0][k] += wt;
+        unsigned long fs = 1, ft = 1;
+        if(trace_sink()->shiftAware){
+            auto o = SpaceIndexType::getRelativePosFromNeighborIndex(code);
+            fs = chi_wrap(tsymb.boxCoord, o, trace_sink()->leafLevel);          // source seen from the target
+            std::array<long, D> om; for(long j = 0 ; j < D ; ++j) om[j] = -o[j];
+            ft = chi_wrap(ssymb.boxCoord, om, trace_sink()->leafLevel);         // target seen from the source
+        }
+        for(long k = 0 ; k < nt ; ++k) trhs[0][k] += fs * ws;
+        for(long k = 0 ; k < ns ; ++k) srhs[0][k] += ft * wt;
         trace_sink()->add("P2P " + std::to_string(ssymb.spaceIndex) + " " + std::to_string(tsymb.spaceIndex) + " " + std::to_string(code)
                           + " sc=" + coordstr(ssymb.boxCoord) + " tc=" + coordstr(tsymb.boxCoord) + " : " + pidstr(sidx, ns) + " : " + pidstr(tidx, nt));
     }
